@@ -14,6 +14,8 @@ fn vf(v: &Vec<File>) -> J { json!({"seq": v.iter().map(fj).collect::<Vec<_>>()})
 #[derive(Deserialize)] struct F1<'a> { title: String, #[serde(borrow)] doc: File<'a> }
 #[derive(Deserialize)] struct F2<'a> { a: &'a str, b: String, #[serde(borrow)] pics: Vec<File<'a>> }
 #[derive(Deserialize)] struct F3 { x: String, y: Option<String> }
+// field names that are not identifiers (serde rename), as in the documentation of Multipart
+#[derive(Deserialize)] struct F4<'a> { #[serde(rename = "user-name")] a: String, #[serde(rename = "pet photos", borrow)] pics: Vec<File<'a>>, #[serde(rename = "ü")] u: Option<String>, #[serde(rename = "a.b[0]", borrow)] f: Option<File<'a>> }
 
 pub fn run_case(c: &J) -> J {
     let input = unhex(c["input"].as_str().unwrap());
@@ -24,6 +26,7 @@ pub fn run_case(c: &J) -> J {
         1 => run!(F1, |v| json!([[k("title"), sj(&v.title)], [k("doc"), {"file": fj(&v.doc)}]])),
         2 => run!(F2, |v| json!([[k("a"), sj(v.a)], [k("b"), sj(&v.b)], [k("pics"), vf(&v.pics)]])),
         3 => run!(F3, |v| json!([[k("x"), sj(&v.x)], [k("y"), os(&v.y)]])),
+        4 => run!(F4, |v| json!([[k("user-name"), sj(&v.a)], [k("pet photos"), vf(&v.pics)], [k("ü"), os(&v.u)], [k("a.b[0]"), of(&v.f)]])),
         _ => json!({"outcome": "bad-tid"}),
     }
 }
